@@ -284,6 +284,7 @@ func init() {
 			}
 			famHist(c, defaultCfg, 25000*c.Scale, 6, "s", false, apiFields, "setters", vsSpec)
 			famEdgeHist(c, defaultCfg, apiFields, "edge-pairs", false, vsSpec)
+			famConfusableSetters(c, vsSpec)
 		},
 		rule: "the 247 WPT setter vectors (implementation and model against the expected values) + generated setter histories (1-6 setters) + all single and all pairs of 67 edge setter calls, and every setter called with its own getter's current value (alone and after every edge call), on 60 start URLs (41 parsed, 19 obtained by resolving a reference); after every step the implementation is compared with the Coq model and with the extracted Spec transcription of the standard's setter steps on the ten API getters",
 	}
@@ -795,6 +796,43 @@ func famEdgeTwo(c *Ctx, cfg *Cfg, fields []int, fam string,
 }
 
 // specPool hands out Spec drivers to the worker goroutines of a family
+// famConfusableSetters: every setter with values in which one ASCII byte is replaced by each of its Unicode confusables
+// (fullwidth forms, digits of other scripts, Kelvin sign, long s ...), alone and followed by the plain value, on six starts
+func famConfusableSetters(c *Ctx, each func(d *Driver, cs histCase, h *implHist, steps []Step, start Obs)) {
+	plain := [9][]string{
+		{"https", "file:", "sc", "ws"}, {"user"}, {"pass"}, {"host.example:8080", "1.2.3.4", "[::1]:81"}, {"k.si", "0x7f.1"}, {"8080", "0", "65535"},
+		{"/a/./b/../c", "C|/x", "/%2e%2E/k"}, {"?k=v&s=%4b", "a b"}, {"#frag", "%53 s"},
+	}
+	starts := []string{"http://u:p@h:81/a/b?q#f", "file:///C:/x", "sc://h/p?q#f", "sc:opaque  ?q#f", "wss://[::1]/", "ftp://1.2.3.4/"}
+	type job struct {
+		start string
+		ops   []Op
+	}
+	var jobs []job
+	for w, vs := range plain {
+		for _, v := range vs {
+			for i := 0; i < len(v); i++ {
+				for _, cf := range confusables(v[i]) {
+					alt := v[:i] + cf + v[i+1:]
+					for k, st := range starts {
+						if (i+k)%2 != 0 {
+							continue
+						}
+						jobs = append(jobs, job{st, []Op{{K: "s", W: w, A: alt}, {K: "s", W: w, A: v}}})
+					}
+				}
+			}
+		}
+	}
+	c.Pool.Run(len(jobs), func(d *Driver, i int) {
+		j := jobs[i]
+		h, steps, start := c.cmpHist(d, defaultCfg, nil, j.start, j.ops, apiFields, "confusable-setter-values", i)
+		if each != nil && h != nil {
+			each(d, histCase{defaultCfg, nil, j.start, j.ops, "confusable-setter-values", i}, h, steps, start)
+		}
+	})
+}
+
 type specPool struct {
 	mu   sync.Mutex
 	free []*Driver
